@@ -335,6 +335,48 @@ func (in *Interp) foreign(fn *types.Func, recv Value, x *ast.CallExpr) []Value {
 		return []Value{in.D.AddSub(token.SUB, a, b)}
 	case "(time.Time).UTC":
 		return []Value{recv}
+	case "(time.Duration).Round", "(time.Duration).Truncate":
+		// the library's definitions for a positive constant multiple m, away from the overflow corner:
+		//   Truncate: d - d%m;   Round: r := d%m; |r|+|r| < m ? d - r : d - r ± m   (halves round away from zero)
+		dv, ok1 := recv.(*Bits)
+		mv, ok2 := in.expr(x.Args[0]).(*Bits)
+		if !ok1 || !ok2 {
+			in.fail(x, "Duration rounding on %T", recv)
+		}
+		mlo, mhi := in.D.Range(mv.Bits(), true)
+		if mlo.Cmp(mhi) != 0 || !mlo.IsInt64() || mlo.Int64() <= 0 {
+			in.fail(x, "Duration rounding to a multiple that is not a positive constant")
+		}
+		m := mlo.Int64()
+		dv = in.D.Resize(dv, 64, true)
+		lo, hi := in.D.RangeOf(dv)
+		if !lo.IsInt64() || !hi.IsInt64() || lo.Int64() < -(1<<62) || hi.Int64() > 1<<62 || m > 1<<61 {
+			in.fail(x, "Duration rounding near the overflow boundary")
+		}
+		r := in.D.DivModConst(dv, m, true) // sign of the dividend
+		trunc := in.D.AddSub(token.SUB, dv, r)
+		if name == "(time.Duration).Truncate" {
+			return []Value{trunc}
+		}
+		zero := in.D.Const(0, 64, true)
+		neg := False
+		if lo.Sign() < 0 {
+			neg = in.D.Cmp(token.LSS, dv, zero)
+		}
+		ra := r
+		if neg != False {
+			ra = in.D.ITE(neg, in.D.AddSub(token.SUB, zero, r), r)
+		}
+		lessThanHalf := in.D.Cmp(token.LSS, in.D.AddSub(token.ADD, ra, ra), in.D.Const(m, 64, true))
+		mc := in.D.Const(m, 64, true)
+		if in.D.M.And(in.live, neg) == False {
+			// non-negative: trunc + m·[not less than half], which keeps the value a linear form (an if-then-else over the
+			// 64 result bits would not)
+			up := in.D.Resize(in.D.Bool(in.D.M.Not(lessThanHalf)), 64, true)
+			return []Value{in.D.AddSub(token.ADD, trunc, in.D.MulConst(up, m))}
+		}
+		away := in.D.ITE(neg, in.D.AddSub(token.SUB, trunc, mc), in.D.AddSub(token.ADD, trunc, mc))
+		return []Value{in.D.ITE(lessThanHalf, trunc, away)}
 	case "math/bits.LeadingZeros8", "math/bits.LeadingZeros16", "math/bits.LeadingZeros32", "math/bits.LeadingZeros64",
 		"math/bits.TrailingZeros8", "math/bits.TrailingZeros16", "math/bits.TrailingZeros32", "math/bits.TrailingZeros64",
 		"math/bits.Len8", "math/bits.Len16", "math/bits.Len32", "math/bits.Len64":
